@@ -159,27 +159,28 @@ type histRunner struct {
 	ts     uint32
 	inGrp  []bool
 
-	lastResolved     Op
-	wroteNow         bool // the current op stored a new record for its key (colliding keys: refreshes stale bookkeeping)
-	fresh            bool // C17: new records carry a timestamp one hour in the past instead of 1970
-	clientWritesInGC int
-	preGC            []*mkey
-	curOp            int
-	wroteUnserved    map[int]bool
-	readsAny         map[string]int
-	listedAfter      int
-	prevVals         map[int][]prevVal // colliding keys: every value ever acknowledged (for the C13-merge-stale exclusion)
-	staleOK          map[int]string    // key -> id of the known finding that tolerates an older own value
-	excluded         map[string]int
-	collideWrites    int
-	reads            map[string]int // residence -> count of checked reads of keys with >=1 overwrite/delete
-	gcPasses         int
-	gcReleased       int64
-	gcKept           int64
-	reopens          int
-	lostByGCOnly     map[int]bool // colliding keys covered by C13-tombstone-sibling only once a GC pass has run
-	crashes          int
-	deletedFiles     int
+	lastResolved      Op
+	wroteNow          bool // the current op stored a new record for its key (colliding keys: refreshes stale bookkeeping)
+	fresh             bool // C17: new records carry a timestamp one hour in the past instead of 1970
+	clientWritesInGC  int
+	preGC             []*mkey
+	curOp             int
+	wroteUnserved     map[int]bool
+	readsAny          map[string]int
+	listedAfter       int
+	prevVals          map[int][]prevVal // colliding keys: every value ever acknowledged (for the C13-merge-stale exclusion)
+	staleOK           map[int]string    // key -> id of the known finding that tolerates an older own value
+	excluded          map[string]int
+	collideWrites     int
+	reads             map[string]int // residence -> count of checked reads of keys with >=1 overwrite/delete
+	gcPasses          int
+	gcReleased        int64
+	gcKept            int64
+	reopens           int
+	lostByGCOnly      map[int]bool // colliding keys covered by C13-tombstone-sibling only once a GC pass has run
+	registeredOnWrite map[int]bool // colliding keys last written while the collision table already knew their hash group
+	crashes           int
+	deletedFiles      int
 }
 
 func (r *histRunner) label(l string) { r.labels[l] = true }
@@ -194,7 +195,7 @@ func (r *histRunner) stamp() uint32 {
 }
 
 func newRunner(h *History, opts runOpts) *histRunner {
-	r := &histRunner{h: h, opts: opts, labels: map[string]bool{}, reads: map[string]int{}, ts: 1000, excluded: map[string]int{}, prevVals: map[int][]prevVal{}, staleOK: map[int]string{}, readsAny: map[string]int{}, wroteUnserved: map[int]bool{}, lostByGCOnly: map[int]bool{}}
+	r := &histRunner{h: h, opts: opts, labels: map[string]bool{}, reads: map[string]int{}, ts: 1000, excluded: map[string]int{}, prevVals: map[int][]prevVal{}, staleOK: map[int]string{}, readsAny: map[string]int{}, wroteUnserved: map[int]bool{}, lostByGCOnly: map[int]bool{}, registeredOnWrite: map[int]bool{}}
 	r.model = make([]*mkey, len(h.Cfg.Keys))
 	for i := range r.model {
 		r.model[i] = &mkey{}
@@ -439,7 +440,12 @@ func (r *histRunner) doSet(op *Op) error {
 	if int64(len(val)) > r.h.Cfg.BodyMax {
 		val = val[:r.h.Cfg.BodyMax]
 	}
-	_, served := r.bucketOf(key)
+	bkt0, served := r.bucketOf(key)
+	groupKnown := false
+	if served && r.inGrp[op.K] {
+		// hint.go set(): a key written while the collision table already knows its hash group is registered there
+		_, groupKnown = bkt0.hints.collisions.get(getKeyHash(key), string(key))
+	}
 	r.ts++
 	err := r.store.Set(newKI(key), newPayload(val, op.Flag, op.Rev, r.stamp()))
 	if err != nil {
@@ -477,6 +483,9 @@ func (r *histRunner) doSet(op *Op) error {
 			r.label("overwrite")
 		}
 		*m = mkey{State: stLive, Val: val, Flag: op.Flag, Spec: op.V, Writes: m.Writes + 1}
+		if groupKnown {
+			r.registeredOnWrite[op.K] = true
+		}
 		r.collideWrites++
 		r.wroteNow = true
 		return nil
@@ -959,7 +968,7 @@ func (r *histRunner) doReopen(op *Op) error {
 					// a live key that the collision table names keeps being found through the table, whatever happened to
 					// the shared tree slot ("unless it is in the collision table"); only a later GC pass, whose not-in-tree
 					// branch ignores the table, can discard its record: until then the finding does not cover it
-					if r.model[k].State == stLive && r.inCollisionTable(k) {
+					if r.model[k].State == stLive && (r.inCollisionTable(k) || r.registeredOnWrite[k]) {
 						r.lostByGCOnly[k] = true
 						continue
 					}
